@@ -51,50 +51,52 @@ type candidate struct {
 }
 
 type pathState struct {
-	prefix     []dec
-	pos        int
-	forks      [][]dec
-	inputs     []symInput
-	names      map[string]int
-	tags       []tagRec
-	obs        []obsRec
-	reached    []string
-	cands      []candidate
-	allocLimit *Term
-	mustTerm   bool
-	allowPanic bool
-	allowExit  bool
-	npc        int
-	unsatMemo  map[int]bool
-	unknowns   int
-	writeMark  int
-	roots      []Value
-	hashes     []*hashApp
-	hstates    map[*Value]*hashState
-	proveMemo  map[int]bool
-	pemLen     int
-	tableArr   map[*bnode]*Term
-	certRawLen int
+	caCN        SliceVal // common name of the test CA (crypto2.go, vsym.Cert)
+	hashInj     []*Term  // indices at which collision resistance is instantiated (vsym.HashInjectiveAt)
+	prefix      []dec
+	pos         int
+	forks       [][]dec
+	inputs      []symInput
+	names       map[string]int
+	tags        []tagRec
+	obs         []obsRec
+	reached     []string
+	cands       []candidate
+	allocLimit  *Term
+	mustTerm    bool
+	allowPanic  bool
+	allowExit   bool
+	npc         int
+	unsatMemo   map[int]bool
+	unknowns    int
+	writeMark   int
+	roots       []Value
+	hashes      []*hashApp
+	hstates     map[*Value]*hashState
+	proveMemo   map[int]bool
+	pemLen      int
+	tableArr    map[*bnode]*Term
+	certRawLen  int
 	parsedTimes map[int]parsedTime
-	signs      []signEvent
-	certKey    map[*Value]string
-	certs      []*Value
-	faultsOn   bool
-	nfault     int
-	localLoc   *Value
-	tzOff      *Term
-	now        *Term
-	now0       *Term
-	preSlots   map[*Value]bool
-	preObjs    map[*ByteObj]bool
-	preMaps    map[*MapVal]bool
-	writeSet   int
-	pemOf      map[*ByteObj]SliceVal
-	uniq       int
-	facts      factTab
-	binds      *bindTab
-	trueMemo   map[int]bool
-	concSplit  uint64 // total symbolic input bytes + slack: allocation sizes up to this are case-split
+	signs       []signEvent
+	certKey     map[*Value]string
+	certs       []*Value
+	faultsOn    bool
+	nfault      int
+	localLoc    *Value
+	tzOff       *Term
+	now         *Term
+	now0        *Term
+	preSlots    map[*Value]bool
+	preObjs     map[*ByteObj]bool
+	preMaps     map[*MapVal]bool
+	writeSet    int
+	pemOf       map[*ByteObj]SliceVal
+	uniq        int
+	facts       factTab
+	binds       *bindTab
+	trueMemo    map[int]bool
+	concSplit   uint64 // total symbolic input bytes + slack: allocation sizes up to this are case-split
 }
 
 type Finding struct {
@@ -521,10 +523,10 @@ type HarnessSpec struct {
 	PreferCVC5   bool
 	IncrMs       int
 	OneShotSec   int
-	NeedReach    []string // labels that some path must reach (vacuity guard)
+	NeedReach    []string       // labels that some path must reach (vacuity guard)
 	Params       map[string]int // harness package variables set before the run (bounds)
-	OpaqueFmt    bool     // fmt.Sprintf returns a placeholder (harness does not inspect formatted text)
-	ConcAlloc    bool     // case-split allocation sizes up to (symbolic input bytes + 64)
+	OpaqueFmt    bool           // fmt.Sprintf returns a placeholder (harness does not inspect formatted text)
+	ConcAlloc    bool           // case-split allocation sizes up to (symbolic input bytes + 64)
 }
 
 type HarnessRun struct {
